@@ -692,5 +692,16 @@ pub fn run_drivers(ctx: &Ctx) -> Vec<Case> {
 pub const RULE_DRIVERS: &str = "driver level: the real OwningQueue<SIZE,BUFFER_SIZE> for (4,16),(8,64),(16,8),(2,1),(32,40),(1,5) with handlers returning Some/None/Err, the real VirtIOInput::pop_pending_event and VirtIOSound::latest_notification; per case a flood of 2..60 x SIZE events (plus a few floods of more than 65536 events so the 16-bit ring indices wrap): the device completes a random held buffer (random order), in bursts of 0..SIZE+2 between polls, with written length uniform in 0..=BUFFER_SIZE, plus zero, full, under-written and oversized (BUFFER_SIZE+1.., 1000, 65536, 2^31, u32::MAX) reported lengths; sound: valid/unknown notification codes; features INDIRECT/EVENT_IDX/ACCESS_PLATFORM varied; non-trivial = more deliveries than the queue has buffers and every delivery followed by a verified same-token re-post";
 
 pub fn run(ctx: &Ctx) -> (Vec<Case>, String, bool, BTreeMap<String, String>) {
-    (run_drivers(ctx), RULE_DRIVERS.to_string(), false, BTreeMap::new())
+    let mut all = run_drivers(ctx);
+    // the socket receive queue through the socket driver proper (C18's stream: well-formed, truncated,
+    // over-long and padded packets): whatever a poll returns — an event, nothing, an error — it must not
+    // panic and the number of posted buffers is back at the queue size afterwards
+    let mut v = crate::c18_vsockconn::run(ctx).0;
+    for c in v.iter_mut() {
+        c.oracle_failures.retain(|f| f.contains("panic in poll") || f.contains("posted"));
+        c.id = format!("C19-via-{}", c.id);
+        c.tag("socket-receive");
+    }
+    all.extend(v);
+    (all, format!("{}; plus the socket driver's receive path (C18's stream) with the no-panic and posted-count oracles", RULE_DRIVERS), false, BTreeMap::new())
 }
